@@ -252,7 +252,7 @@ def name_sources(chk, fb, RID="R04.5"):
     of `x+y`); its variable nodes are indexed against its full list and reset_vars re-indexes by name, so a list
     rebuilt from the nodes alone drops names and shifts every value binding."""
     import re
-    from analysis.interp import Interp, Policy, Sym, show
+    from analysis.interp import Interp, Policy, Sym, Closure, show
     chk.rule(RID, "DeepEx::new: the names of a nested expression come from its own var_names list, the names of variable nodes from the nodes")
     nb = [b for p, b in fb.bodies.items() if b["kind"] == "AssocFn" and b.get("name") == "new" and (b.get("impl_self_ty") or "").startswith("expression::deep::DeepEx<")]
     if len(nb) != 1:
@@ -280,6 +280,15 @@ def name_sources(chk, fb, RID="R04.5"):
             if k != "e" or x[0] != "call":
                 continue
             m = x[1].rsplit("::", 1)[-1]
+            if m == "for_each" and len(x[2]) == 2 and isinstance(x[2][1], Closure) and re.search(r"var_names\(.*as:Expr\(", show(x[2][0])):
+                # e.var_names.iter().for_each(|name| push(.., name)): the closure grows the list by its argument
+                cbody = fb.bodies.get(x[2][1].path)
+                if cbody is not None:
+                    for q in Interp(fb, P()).run(cbody, [x[2][1], Sym("NESTED_ITEM")]):
+                        for k2, y in q.trace:
+                            if k2 == "e" and y[0] == "call" and y[1].rsplit("::", 1)[-1] in GROW and any("NESTED_ITEM" in show(a) for a in y[2][1:]):
+                                from_nested += 1
+                continue
             if m not in GROW or "String" not in str(x[5].get("args")) + str(x[5].get("impl_self_ty")):
                 continue
             el = " ".join(show(a) for a in x[2][1:])
